@@ -62,7 +62,8 @@ func cacheKey(uri, parentURI string) string {
 
 	fileName := strings.TrimPrefix(uri, "file://")
 	if filepath.IsAbs(fileName) || parentURI == "" {
-		return uri
+		// the same spelling a reference to this file resolves to ("./a.json" and "a.json" are one file)
+		return filepath.Clean(fileName)
 	}
 
 	return filepath.Join(filepath.Dir(parentURI), fileName)
